@@ -55,7 +55,7 @@ class BusProtocol (txdbus.protocol.BasicDBusProtocol):
             self.bus.clientDisconnected(self)
 
     def rawDBusMessageReceived(self, raw_msg):
-        msg = message.parseMessage(raw_msg)
+        msg = message.parseMessage(raw_msg, self._receivedFDs)
         mt = msg._messageType
 
         if not self.uniqueName:
